@@ -166,17 +166,36 @@ func (s *Sim) AfterFunc(d time.Duration, fn func()) *timer {
 
 func (s *Sim) fireNextTimer() bool {
 	best := -1
-	for i, t := range s.timers {
-		if t.dead {
-			continue
+	live := s.timers[:0]
+	for _, t := range s.timers {
+		if !t.dead {
+			live = append(live, t)
 		}
+	}
+	s.timers = live
+	for i, t := range s.timers {
 		if best < 0 || t.at < s.timers[best].at || (t.at == s.timers[best].at && t.seq < s.timers[best].seq) {
 			best = i
 		}
 	}
-	if best < 0 {
-		s.timers = s.timers[:0]
+	// blocked I/O with a deadline
+	var dl time.Duration = -1
+	for _, t := range s.tasks {
+		if t.State == Blocked && t.deadline >= 0 && (dl < 0 || t.deadline < dl) {
+			dl = t.deadline
+		}
+	}
+	if best < 0 && dl < 0 {
 		return false
+	}
+	if dl >= 0 && (best < 0 || dl <= s.timers[best].at) {
+		if dl > s.now {
+			s.now = dl
+		}
+		s.Stats.TimersFired++
+		s.Version++
+		s.logEvent("deadline", nil, "")
+		return true
 	}
 	t := s.timers[best]
 	s.timers = append(s.timers[:best], s.timers[best+1:]...)
